@@ -627,7 +627,14 @@ def run(ck):
             return False
         sets = [e for e in f.events("call") if manip(e, ("hex", "oct"))]
         for e in sets:
-            restores = lambda ev: manip(ev, ("dec",)) or (ev["k"] == "call" and (ev.get("callee") or "").rsplit("::", 1)[-1] in ("flags", "copyfmt") and ev is not e)
+            # (or the destructor of a format guard -- a local object whose destructor puts the saved flags back -- declared before)
+            guards7 = {d_["var"] for d_ in f.events("decl") if d_.get("var") and any(
+                any((c_.get("callee") or "").rsplit("::", 1)[-1] in ("flags", "copyfmt", "setf", "unsetf") for c_ in g_.events("call"))
+                for g_ in prog.funcs.values() if g_.blocks and g_.base.rsplit("::", 1)[-1].startswith("~") and
+                strip_tmpl(g_.cls or "").rsplit("::", 1)[-1] and strip_tmpl(g_.cls or "").rsplit("::", 1)[-1] in (d_.get("type") or "") + (d_.get("ctor") or ""))
+                and cfg.ev_dominates(cfg.dominators(f), d_, e)}
+            restores = lambda ev: manip(ev, ("dec",)) or (ev["k"] == "call" and (ev.get("callee") or "").rsplit("::", 1)[-1] in ("flags", "copyfmt") and ev is not e) or \
+                (ev["k"] == "dtor" and ev.get("var") in guards7)
             loose = [x for x in cfg.exits_without(f, restores, start_block=e.block, start_idx=e.idx + 1) if x.kind != "throw"]
             ck.ob("C05-R7", "%s/base-restored" % f.base.replace("Pistache::", ""), not loose, e.loc, f,
                   "the decimal base is restored on every path" if not loose else
